@@ -101,6 +101,14 @@ TEXTS = {
          "sampling flag per scope) afterwards equals the context before, provided the id prefix is non-zero (K3 "
          "boundary). Tied to the code by orchestrated single-thread and adapter histories comparing contexts, parents "
          "and attachment targets. !Send of guards is a compile-time fact, not a theorem.", "DESIGN.md 6/C10"),
+ "C18": ("Kernel-checked theorems: every record's duration is the converted finish instant minus the converted start "
+         "instant (collection time for open spans), for local-span sets and thread-safe spans; a monotone conversion makes "
+         "begin + duration the converted finish, so intervals nest and order in unix time as the instants do. Nesting of "
+         "the instants themselves follows from the LIFO discipline of the local layer (C10) and is checked on every "
+         "explored history: the order of ALL time points of every report must agree with the model's logical clock "
+         "wherever execution fixes it, durations must lie in the wall-clock bracket of the start/finish calls, begin times "
+         "in the wall-clock window of the run. elapsed() is compared as Some/None. Partial: agreement with real time is "
+         "measured with slack (20 us + 2%, 50 ms for absolute times), not proved.", "DESIGN.md 6/C18"),
  "C19": ("Kernel-checked theorems for the Jaeger reporter: convert transmits ids exactly (128-bit trace id as two "
          "recombining halves), name/tags/log fields unchanged and in order, times in whole microseconds; zig-zag and "
          "varint round-trip for every 64-bit value (top bit set included). The Thrift compact emitBatch encoder is "
